@@ -740,6 +740,10 @@ func (c *Ctx) ruleBlamedType(rule string) {
 			n++
 			perFn[f.Name()+site]++
 			key := fmt.Sprintf("%s | %s #%d", f.Name(), site, perFn[f.Name()+site])
+			if why := c.redirectGatedBy(f, call); asks && why != "" {
+				r.Bad(rule, key, "the error is located in the type the library blames only when "+why+" holds as well: in the other case the index that counts from the blamed type's body is added to the body of the type being checked", c.pos(call.Pos()))
+				return true
+			}
 			if asks {
 				r.Ok(rule, key, "the function asks the error which user type it blames (IncorrectUserType()) before it chooses the directive", c.pos(call.Pos()))
 			} else {
@@ -751,4 +755,92 @@ func (c *Ctx) ruleBlamedType(rule string) {
 	if n < 2 {
 		r.Undecided(rule, "sites", fmt.Sprintf("only %d conversions of a user type's Check() error found", n), "")
 	}
+}
+
+// redirectGatedBy: the conversion `call` sits under conditions; when its directive argument is the one looked up by the
+// blamed type's name (GetValue(<e>.IncorrectUserType())), every atom of those conditions must be about the blame itself
+// (errors.As, a comparison of IncorrectUserType(), the nil test of the directive found). Returns the text of an atom
+// that is about something else ("" when there is none, or when the call is not such a redirect).
+func (c *Ctx) redirectGatedBy(f *Fn, call *ast.CallExpr) string {
+	pk := f.Pkg
+	if len(call.Args) != 2 {
+		return ""
+	}
+	isBlameLookup := func(e ast.Expr) bool {
+		found := false
+		ast.Inspect(e, func(m ast.Node) bool {
+			if sel, ok := m.(*ast.SelectorExpr); ok && sel.Sel.Name == "IncorrectUserType" {
+				found = true
+			}
+			return !found
+		})
+		return found
+	}
+	dArg := ast.Unparen(call.Args[1])
+	var dObj types.Object
+	redirect := false
+	if id, ok := dArg.(*ast.Ident); ok {
+		dObj = pk.TypesInfo.Uses[id]
+		ast.Inspect(f.Decl.Body, func(m ast.Node) bool {
+			as, ok := m.(*ast.AssignStmt)
+			if !ok {
+				return true
+			}
+			for i, l := range as.Lhs {
+				if lid, ok := l.(*ast.Ident); ok && pk.TypesInfo.ObjectOf(lid) == dObj && i < len(as.Rhs) && isBlameLookup(as.Rhs[i]) {
+					redirect = true
+				}
+			}
+			return true
+		})
+	} else if isBlameLookup(dArg) {
+		redirect = true
+	}
+	if !redirect {
+		return ""
+	}
+	stack := c.stackOf(f, call)
+	for i := len(stack) - 1; i >= 0; i-- {
+		ifs, ok := stack[i].(*ast.IfStmt)
+		if !ok || !(ifs.Body.Pos() <= call.Pos() && call.End() <= ifs.Body.End()) {
+			continue
+		}
+		for _, a := range impliedAtoms(ifs.Cond, true) {
+			okAtom := false
+			ast.Inspect(a.e, func(m ast.Node) bool {
+				switch x := m.(type) {
+				case *ast.CallExpr:
+					if cal := callee(pk, x); cal != nil && cal.Pkg() != nil && cal.Pkg().Path() == "errors" && cal.Name() == "As" {
+						okAtom = true
+					}
+				case *ast.SelectorExpr:
+					if x.Sel.Name == "IncorrectUserType" {
+						okAtom = true
+					}
+				case *ast.Ident:
+					if dObj != nil && pk.TypesInfo.Uses[x] == dObj {
+						okAtom = true
+					}
+				}
+				return true
+			})
+			// a predicate helper of the library about the blame (blamesAnotherUserType(e, name))
+			if call2, isCall := ast.Unparen(a.e).(*ast.CallExpr); isCall && !okAtom {
+				if cal := callee(pk, call2); cal != nil {
+					if g := c.fnOf(cal); g != nil && g.Decl != nil && g.Decl.Body != nil {
+						ast.Inspect(g.Decl.Body, func(m ast.Node) bool {
+							if sel, ok := m.(*ast.SelectorExpr); ok && sel.Sel.Name == "IncorrectUserType" {
+								okAtom = true
+							}
+							return true
+						})
+					}
+				}
+			}
+			if !okAtom {
+				return "`" + exprString(a.e) + "`"
+			}
+		}
+	}
+	return ""
 }
